@@ -19,7 +19,7 @@ I_LIMITS = [-(1 << 63), -(1 << 31), -16777216, -300, -5, -1, 0, 1, 2, 5, 255, 16
 S_SCALES = [0.1, 0.01, 1.0, 0.003, 2.5, 1e-6, 1e6, 0.5, 1 / 3, 0.7, 0.03, 0.3]
 S_LIMITS = [-(1 << 40), -16777216, -300, -30, -3, -1, 0, 1, 3, 30, 333, 16777216, 1 << 40]
 NAMES = ['a', 'b', 'c', 'x_1', 'On', 'OFF', 'value', 'ü']
-ENUM_NAMES = ['off', 'on', 'idle', 'BUSY', 'err_1', 'x', 'Y2']
+ENUM_NAMES = ['off', 'on', 'idle', 'BUSY', 'err_1', 'x', 'Y2', 'name', 'value']   # (attribute names of the member objects included)
 
 
 def _sorted2(lst, allow_none=False):
